@@ -11,6 +11,7 @@ NOTE_SESS = ("Exhaustive only within the stated constants of the .cfg files; bey
              "dyadic rationals (types everywhere); sessions leaving that domain are discarded and counted.")
 CHECKS = {
  "C01": ("model_checking", SESS, "DESIGN.md 5 C01", "TLA+ spec + TLC bounded program space, spec-to-impl sessions validated by TLC trace validation"),
+ "C03": ("model_checking", "Explicit implementation-shaped TLA+ model of Runtime's run states and of the terminal's calling protocol (RuntimeShell). TLC checks ProtocolSafe, CacheCoherent and the liveness property Converges (after one interrupt and no further input the prompt is reached, weak fairness of execute). The harness drives the real Runtime through the protocol with menu sequences, every short string over the lexical alphabet, byte / token soup and damaged programs, interrupts, replies and live listing snapshots, recording every API call with its event and a state probe; TLC (TraceShell) decides whether each call trace is a behaviour of the model; a caught panic or a call that does not return within the watchdog has no counterpart.", "DESIGN.md 5 C03", "TLA+ shell model + TLC safety and liveness; implementation call traces validated by TLC trace validation"),
  "C04": ("model_checking", SESS, "DESIGN.md 5 C04", "TLA+ spec + TLC state graph of edit histories, TLC trace validation"),
  "C05": ("model_checking", "Explicit TLA+ model of the scanner and lister (BasicLex: Lex, ShowL, Meaning). TLC enumerates every string up to the bound over the lexically significant alphabet, checks ModelRoundTrip on the model, and prints each string with the model's tokens and listed text; the harness feeds each to the real lexer / lister / parser and checks the property's own relations (same number, same parse or rejected in both, fixed point for lines that parse, literals preserved) and counts model/implementation divergence separately.", "DESIGN.md 5 C05", "TLA+ model scanner + TLC exhaustive enumeration of short strings, spec-to-implementation replay with relational oracle"),
  "C06": ("model_checking", SESS, "DESIGN.md 5 C06", "TLA+ spec + TLC state graph of the variable store, TLC trace validation with full store probe"),
@@ -32,6 +33,11 @@ CHECKS = {
 }
 NOTES = {"C08": "Exhaustive over the stated grid only (all 65536 values for unary forms in the thorough tier, boundary grid for binary operators); harness renderer/comparator trusted."}
 ALL = ["C%02d" % i for i in range(1, 21)]
+NOTES["C03"] = ("The content of entered lines is opaque to the shell model: which inputs are tried is fuzzing inside the harness "
+                "(exhaustive short strings, seeded soup); the model decides the verdict over the resulting call / state sequences. "
+                "Watchdog 3 s per call; debug assertions off (release profile semantics).")
+NOTES["C05"] = ("Exhaustive over strings up to the stated length / alphabet only; long lines are seeded mutations. The comparator "
+                "(AST Debug text with column ranges removed) and the harness are trusted.")
 NA_REASON = "check not built yet in this round (planned; see DESIGN.md section 5)"
 
 def main():
